@@ -10,9 +10,13 @@ struct Cx {
     open: Vec<String>,
     d_fail: u64,
     k_fail: u64,
+    deadlocks: u64,
 }
 
 const T_PROG: Duration = Duration::from_secs(12);
+/// deadlock watchdog for one stress request (normal duration: 0.05–1 s; generous because other
+/// builds share the machine)
+const WATCHDOG: Duration = Duration::from_secs(45);
 
 impl Cx {
     /// send the same requests to both runners (in parallel), answers in order
@@ -269,14 +273,20 @@ impl Cx {
     // ---------------------------------------------------------------------------------------------
     // (K2) stress on the arc runner
     fn stress_small(&mut self, s: &Stress) {
-        let req = stress_request(s, true, 400);
-        let ans = match self.arc.request(&req, Duration::from_secs(60)) {
+        let big = match &s.init {
+            St::L(l) => l.len() > 100,
+            St::M(m) => m.len() > 100,
+        };
+        let req = stress_request(s, true, if big { 30 } else { 400 });
+        let ans = match self.arc.request(&req, WATCHDOG) {
             Reply::Ok(a) => a,
             Reply::Timeout => {
                 self.d_fail += 1;
-                self.rep.violation("D", "C19:deadlock", json!({"kind": "stress", "mode": s.kind, "init": s.init.show(),
-                    "programs": s.progs.iter().map(|p| p.iter().map(|o| o.sexp()).collect::<Vec<_>>()).collect::<Vec<_>>(),
-                    "note": "threads running single-bracket operations on one shared container did not finish within 60 s (watchdog)"}));
+                self.deadlocks += 1;
+                self.rep.violation("D", "C19:deadlock", json!({"kind": "stress", "mode": s.kind, "init": s.init.show().chars().take(300).collect::<String>(),
+                    "programs": s.progs.iter().map(|p| p.iter().map(|o| o.sexp().chars().take(200).collect::<String>()).collect::<Vec<_>>()).collect::<Vec<_>>(),
+                    "koto_statements": s.progs.iter().map(|p| p.iter().map(|o| o.koto().chars().take(200).collect::<String>()).collect::<Vec<_>>()).collect::<Vec<_>>(),
+                    "note": "DEADLOCK: threads running single-container operations on one shared container made no progress for 45 s (a run of this size takes well under a second); thread 0 runs the operation under test, the others the mutators"}));
                 return;
             }
             Reply::Died(st) => {
@@ -305,9 +315,12 @@ impl Cx {
             let key = format!("{} {} {:?} -> {:?} {}", s.kind, s.init.show(), s.progs, threads, fin);
             self.rep.case(&key, s.progs.iter().map(|p| p.len()).sum::<usize>() >= 3);
             let bad = threads.iter().flatten().any(|t| !ok_token(t)) || threads.iter().zip(&s.progs).any(|(r, p)| r.len() != p.len());
-            let hist = json!({"kind": "stress", "mode": s.kind, "init": s.init.show(),
-                "programs": s.progs.iter().map(|p| p.iter().map(|o| o.sexp()).collect::<Vec<_>>()).collect::<Vec<_>>(),
-                "observed": threads, "final": fin, "rounds_with_this_outcome": o["n"]});
+            let clip = |x: &str| -> String { if x.len() > 600 { format!("{} …[{} chars]", x.chars().take(600).collect::<String>(), x.len()) } else { x.to_string() } };
+            let hist = json!({"kind": "stress", "mode": s.kind, "init": clip(&s.init.show()),
+                "programs": s.progs.iter().map(|p| p.iter().map(|o| clip(&o.sexp())).collect::<Vec<_>>()).collect::<Vec<_>>(),
+                "observed": threads.iter().map(|t| t.iter().map(|x| clip(x)).collect::<Vec<_>>()).collect::<Vec<_>>(),
+                "final": clip(&fin), "final_len": split_tokens(fin.trim_start_matches('(').trim_end_matches(')')).len(),
+                "rounds_with_this_outcome": o["n"]});
             if bad {
                 self.d_fail += 1;
                 if self.d_fail <= 6 {
@@ -359,6 +372,93 @@ impl Cx {
                 }
             }
         }
+    }
+
+    /// compound forms (several guards / callbacks / iteration): watchdog and host panics only
+    fn stress_compound(&mut self, s: &Stress, form: &str) {
+        let req = stress_request(s, true, 30);
+        self.rep.case(&format!("compound {} {}", form, kvh::fnv1a(req.as_bytes())), true);
+        self.rep.bump(&format!("pair_compound_form={}", form));
+        match self.arc.request(&req, WATCHDOG) {
+            Reply::Timeout => {
+                self.d_fail += 1;
+                self.deadlocks += 1;
+                self.rep.violation("D", "C19:deadlock", json!({"kind": "stress", "mode": s.kind, "form": form,
+                    "koto_statements": s.progs.iter().map(|p| p.iter().map(|o| o.koto()).collect::<Vec<_>>()).collect::<Vec<_>>(),
+                    "note": "DEADLOCK: no progress for 45 s"}));
+            }
+            Reply::Died(st) => {
+                self.d_fail += 1;
+                self.rep.violation("D", "C19:runner-died", json!({"kind": "stress", "form": form, "status": st}));
+            }
+            Reply::Ok(ans) => {
+                let v: Value = serde_json::from_str(&ans).unwrap_or(json!({}));
+                for o in v["outcomes"].as_array().cloned().unwrap_or_default() {
+                    for t in o["threads"].as_array().cloned().unwrap_or_default() {
+                        let t = t.as_str().unwrap_or("").to_string();
+                        if t.starts_with("PANIC:") {
+                            self.d_fail += 1;
+                            if self.d_fail <= 8 {
+                                self.rep.violation("D", &format!("C19:host-panic:{}", form), json!({"kind": "stress", "form": form, "panic": t,
+                                    "koto_statements": s.progs.iter().map(|p| p.iter().map(|o| o.koto()).collect::<Vec<_>>()).collect::<Vec<_>>(),
+                                    "note": "a compound operation need not be atomic, but a race must not panic the host"}));
+                            }
+                            return;
+                        } else if t.starts_with("RUN-ERROR:") {
+                            self.rep.bump("pair_compound_script_error");
+                        }
+                    }
+                }
+            }
+        }
+    }
+
+    /// every form of the coverage table, concurrently with the mutators
+    fn stress_pairs(&mut self) {
+        let t0 = std::time::Instant::now();
+        let (exact, compound) = all_forms();
+        let budget = if self.thorough { 420.0 } else { 40.0 };
+        let passes = if self.thorough { 8 } else { 2 };
+        let mut done = 0u64;
+        'outer: for pass in 0..passes {
+            for (fi, tag) in exact.iter().enumerate() {
+                if *tag == "m.eq" && MAP_EQ_EXCLUDED.load(std::sync::atomic::Ordering::Relaxed) {
+                    continue;
+                }
+                for big in [true, false] {
+                    if self.deadlocks > 0 {
+                        self.rep.note("pair stress stopped after the first deadlock (each one costs a 45 s watchdog)");
+                        break 'outer;
+                    }
+                    if t0.elapsed().as_secs_f64() > budget {
+                        self.rep.note(format!("pair stress: wall-clock budget reached after {} histories (pass {})", done, pass));
+                        break 'outer;
+                    }
+                    let mut r = self.rng.fork();
+                    let n_threads = [2usize, 3, 4, 8][(fi + pass + big as usize) % if self.thorough { 4 } else { 3 }];
+                    let rounds = match (self.thorough, big) {
+                        (true, true) => 300,
+                        (true, false) => 800,
+                        (false, true) => 200,
+                        (false, false) => 400,
+                    };
+                    let s = gen_pair(&mut r, tag, big, n_threads, rounds);
+                    self.rep.bump(&format!("pair_form={}", tag));
+                    self.stress_small(&s);
+                    done += 1;
+                }
+            }
+            for tag in compound.iter() {
+                if self.deadlocks > 0 || t0.elapsed().as_secs_f64() > budget {
+                    break 'outer;
+                }
+                let mut r = self.rng.fork();
+                let s = gen_pair(&mut r, tag, pass % 2 == 0, 3, if self.thorough { 300 } else { 120 });
+                self.stress_compound(&s, tag);
+                done += 1;
+            }
+        }
+        self.rep.extra.insert("pair_stress".into(), json!({"histories": done, "exact_forms": exact.len(), "compound_forms": compound.len(), "wall_s": t0.elapsed().as_secs_f64()}));
     }
 
     fn stress_big(&mut self, s: &Stress, check: fn(&Stress, &[Vec<String>], &str) -> Result<Value, String>) {
@@ -489,7 +589,7 @@ fn main() {
     let rc = Child::spawn(&me);
     let arc = Child::spawn(std::path::Path::new(&arc_path));
     let thorough = args.thorough();
-    let mut cx = Cx { rep, drv, rc, arc, rng: Rng::new(args.seed), thorough, open, d_fail: 0, k_fail: 0 };
+    let mut cx = Cx { rep, drv, rc, arc, rng: Rng::new(args.seed), thorough, open, d_fail: 0, k_fail: 0, deadlocks: 0 };
     let (fa, fb) = cx.both(&["feature".to_string()], Duration::from_secs(20));
     if fa[0] != "rc" || fb[0] != "arc" {
         cx.rep.violation("K", "K:C19:builds", json!({"rc_runner_says": fa[0], "arc_runner_says": fb[0], "note": "the two runners are not an rc build and an arc build"}));
@@ -527,6 +627,18 @@ fn main() {
             println!("selftest {:.1}s {}", t.elapsed().as_secs_f64(), cx.rep.extra["sensitivity_selftest"]);
         }
         return;
+    }
+    // ---- operation table vs source ---------------------------------------------------------------
+    let (problems, listing) = check_op_table();
+    cx.rep.extra.insert("operation_table".into(), listing);
+    if !problems.is_empty() {
+        cx.k_fail += 1;
+        cx.rep.violation("K", "K:C19:op-table", json!({"problems": problems,
+            "note": "the container operations registered in core_lib/list.rs / map.rs and the C19 coverage table differ: an operation without concurrent coverage (or a stale entry)"}));
+    }
+    if cx.open.iter().any(|x| x == "F-C19-10") {
+        MAP_EQ_EXCLUDED.store(true, std::sync::atomic::Ordering::Relaxed);
+        cx.rep.note("shape filter: map `==` (form m.eq) is not part of the generated mixes while F-C19-10 is open; it is replayed as a history witness");
     }
     // ---- 0. listed findings ---------------------------------------------------------------------
     let t_phase = std::time::Instant::now();
@@ -679,10 +791,13 @@ fn selftest(cx: &mut Cx) {
 fn run_stress_phases(cx: &mut Cx) {
     let thorough = cx.thorough;
     let t0 = std::time::Instant::now();
+    cx.stress_pairs();
+    let t_pairs = t0.elapsed().as_secs_f64();
+    let t0 = std::time::Instant::now();
     selftest(cx);
     let t_self = t0.elapsed().as_secs_f64();
     // small histories, exact linearizability check
-    let n_small = if thorough { 3000 } else { 300 };
+    let n_small = if thorough { 2500 } else { 160 };
     let rounds = if thorough { 1500 } else { 400 };
     // wall-clock budgets (spin barriers are slow on an oversubscribed machine): specs are taken in
     // seed order, so a shorter run explores a prefix of a longer one
@@ -691,6 +806,10 @@ fn run_stress_phases(cx: &mut Cx) {
     for i in 0..n_small {
         if i >= 12 && t0.elapsed().as_secs_f64() - t_self > budget_small {
             break;
+        }
+        if cx.deadlocks >= 2 {
+            cx.rep.note("stress stopped after the second deadlock (each one costs a 45 s watchdog)");
+            return;
         }
         small_done += 1;
         let mut r = cx.rng.fork();
@@ -712,6 +831,9 @@ fn run_stress_phases(cx: &mut Cx) {
             break;
         }
         big_done += 1;
+        if cx.deadlocks >= 2 {
+            return;
+        }
         for n in [2usize, 4, 8] {
             let mut r = cx.rng.fork();
             let _ = rep_i;
@@ -727,7 +849,7 @@ fn run_stress_phases(cx: &mut Cx) {
             cx.stress_big(&s, check_slots);
         }
     }
-    cx.rep.extra.insert("stress_phase_end_s".into(), json!({"selftest": t_self, "small": t_small, "big": t0.elapsed().as_secs_f64(),
+    cx.rep.extra.insert("stress_phase_end_s".into(), json!({"pairs": t_pairs, "selftest": t_self, "small": t_small, "big": t0.elapsed().as_secs_f64(),
         "small_specs_run": small_done, "small_specs_planned": n_small, "big_sets_run": big_done, "big_sets_planned": reps}));
 }
 
@@ -815,7 +937,79 @@ fn replay_known(cx: &mut Cx) {
                 cx.rep.violation("D", &format!("C19:atomicity:{}", tc.id), json!({"kind": "stress", "scripts": tc.scripts, "observed": o,
                     "note": "the race witness of a listed finding fails in a way the entry does not document"}));
             }
-            (None, None) => cx.rep.note(format!("{}: race not reproduced in this run (schedule dependent)", tc.id)),
+            (None, None) => {
+                if known {
+                    cx.rep.note(format!("{}: race not reproduced in this run (schedule dependent)", tc.id));
+                }
+            }
+        }
+    }
+    // nested read guards on one cell: deadlock witnesses, each in its own arc runner, in parallel
+    let cases: Vec<DeadlockCase> = deadlock_cases(30000).into_iter().filter(|c| cx.rep.known_entries().iter().any(|e| e["id"].as_str() == Some(c.id))).collect();
+    let arc_exe = cx.arc.exe.clone();
+    let open = cx.open.clone();
+    let results: Vec<(String, bool)> = std::thread::scope(|sc| {
+        let hs: Vec<_> = cases
+            .iter()
+            .map(|c| {
+                let exe = arc_exe.clone();
+                let known = open.iter().any(|x| x == c.id);
+                sc.spawn(move || {
+                    let mut ch = Child::spawn(&exe);
+                    let req = raw_stress_request(c.kind, c.init.clone(), &c.scripts, 2);
+                    // known: the hang is expected, a short watchdog keeps the run short;
+                    // fixed: a regression is only claimed after the generous watchdog
+                    let ans = ch.ask(&req, if known { Duration::from_secs(8) } else { WATCHDOG });
+                    (ans, known)
+                })
+            })
+            .collect();
+        hs.into_iter().map(|h| h.join().unwrap()).collect()
+    });
+    for (c, (ans, known)) in cases.iter().zip(results) {
+        cx.rep.case(&format!("deadlock witness {}", c.id), true);
+        let hung = ans == "TIMEOUT";
+        let panicked = ans.contains("PANIC:") || ans.starts_with("DIED");
+        if hung && known {
+            cx.rep.known(c.id, "nested read guards on one cell: reader and writers hang under arc (runner killed by the 8 s watchdog)");
+        } else if hung {
+            cx.d_fail += 1;
+            cx.rep.violation("D", &format!("C19:regression:{}", c.id), json!({"kind": "stress", "scripts": c.scripts, "note": "DEADLOCK: a finding recorded as fixed hangs again (45 s without progress)"}));
+        } else if panicked {
+            cx.d_fail += 1;
+            cx.rep.violation("D", &format!("C19:atomicity:{}", c.id), json!({"kind": "stress", "scripts": c.scripts, "observed": ans.chars().take(500).collect::<String>()}));
+        } else if known {
+            cx.rep.note(format!("{}: deadlock not reproduced in this run", c.id));
+        }
+    }
+    // map `==` over two guards: history witness, exact check
+    if cx.rep.known_entries().iter().any(|e| e["id"].as_str() == Some("F-C19-10")) {
+        let known = cx.open.iter().any(|x| x == "F-C19-10");
+        let s = map_eq_history(if cx.thorough { 6000 } else { 2500 });
+        let ans = cx.arc.ask(&stress_request(&s, true, 200), WATCHDOG);
+        cx.rep.case("history witness F-C19-10", true);
+        let v: Value = serde_json::from_str(&ans).unwrap_or(json!({}));
+        let mut bad: Option<String> = None;
+        for o in v["outcomes"].as_array().cloned().unwrap_or_default() {
+            let threads: Vec<Vec<String>> = o["threads"].as_array().unwrap().iter().map(|t| split_tokens(t.as_str().unwrap_or(""))).collect();
+            let fin = o["final"].as_str().unwrap_or("").to_string();
+            if threads.iter().flatten().any(|t| !ok_token(t)) || matches!(find_linearization(&s.init, &s.progs, &threads, &fin), Ok(None)) {
+                bad = Some(format!("{:?} final {}", threads, fin));
+                break;
+            }
+        }
+        match (bad, known) {
+            (Some(b), true) => cx.rep.known("F-C19-10", &format!("map == over two guards: outcome without a linearization: {}", b.chars().take(160).collect::<String>())),
+            (Some(b), false) => {
+                cx.d_fail += 1;
+                cx.rep.violation("D", "C19:regression:F-C19-10", json!({"kind": "stress", "observed": b, "note": "a finding recorded as fixed fails again"}));
+            }
+            (None, true) => cx.rep.note("F-C19-10: race not reproduced in this run (schedule dependent)"),
+            (None, false) => {}
+        }
+        if ans == "TIMEOUT" {
+            cx.d_fail += 1;
+            cx.rep.violation("D", "C19:deadlock", json!({"kind": "stress", "mode": "witness-map-eq"}));
         }
     }
 }
